@@ -466,4 +466,35 @@ theorem lrmsdFast_map {fD fR : Atom → Atom} (hD : IdPreserving fD) (hR : IdPre
         | error e => simp [Outcome.ofExcept, mapOutcome, Except.map]
         | ok xr => simp only [Except.map, Outcome.ofExcept, kernelLists_map]
 
+/-- the fast routines use the tables only for the zone and for the residue check: the coordinates they hand over come
+    from the record lines -/
+theorem irmsdFast_tables {fD fR : Atom → Atom} (hD : IdPreserving fD) (hR : IdPreserving fR) (c : Rat) (hc : KeepsCutoff fR c)
+    (dl rl : List Str) (dec ref : List Atom) (src : ZoneSrc) (check enforce : Bool) :
+    irmsdFast dl rl (.ok (dec.map fD)) (.ok (ref.map fR)) src c check enforce =
+      irmsdFast dl rl (.ok dec) (.ok ref) src c check enforce := by
+  unfold irmsdFast
+  simp only [bind, Except.bind, pure, Except.pure, computeIzone_map hR c hc, checkResidues_map hD hR]
+
+theorem lrmsdFast_tables {fD fR : Atom → Atom} (hD : IdPreserving fD) (hR : IdPreserving fR)
+    (dl rl : List Str) (dec ref : List Atom) (src : ZoneSrc) (check enforce : Bool) :
+    lrmsdFast dl rl (.ok (dec.map fD)) (.ok (ref.map fR)) src check enforce =
+      lrmsdFast dl rl (.ok dec) (.ok ref) src check enforce := by
+  unfold lrmsdFast
+  simp only [bind, Except.bind, pure, Except.pure, computeLzone_map hR, checkResidues_map hD hR]
+
+/-- … and the record lines only through the raw readers -/
+theorem irmsdFast_lines {dl dl' rl rl' : List Str} (hk : rawKeys dl' = rawKeys dl) (hp : rawPts dl' = rawPts dl)
+    (hk' : rawKeys rl' = rawKeys rl) (hp' : rawPts rl' = rawPts rl)
+    (td tr : Except Err (List Atom)) (src : ZoneSrc) (c : Rat) (check enforce : Bool) :
+    irmsdFast dl' rl' td tr src c check enforce = irmsdFast dl rl td tr src c check enforce := by
+  unfold irmsdFast dataZoneBackbone getXyz xyzZoneBackbone
+  simp only [hk, hp, hk', hp']
+
+theorem lrmsdFast_lines {dl dl' rl rl' : List Str} (hk : rawKeys dl' = rawKeys dl) (hp : rawPts dl' = rawPts dl)
+    (hk' : rawKeys rl' = rawKeys rl) (hp' : rawPts rl' = rawPts rl)
+    (td tr : Except Err (List Atom)) (src : ZoneSrc) (check enforce : Bool) :
+    lrmsdFast dl' rl' td tr src check enforce = lrmsdFast dl rl td tr src check enforce := by
+  unfold lrmsdFast dataZoneBackbone getXyz xyzZoneBackbone
+  simp only [hk, hp, hk', hp']
+
 end Proofs.Rmsd
